@@ -45,7 +45,7 @@ impl<T: RefCnt> CaS<T> for RwLock<()> {
         let _lock = self.write();
         let cur = current.as_raw();
         let new = T::into_ptr(new);
-        let swapped = storage.compare_exchange(cur, new, Ordering::AcqRel, Ordering::Relaxed);
+        let swapped = storage.compare_exchange(cur, new, Ordering::AcqRel, Ordering::Acquire);
         let old = match swapped {
             Ok(old) => old,
             Err(old) => old,
